@@ -54,7 +54,7 @@ CLASSES = ["is_archive", "is_audio", "is_book", "is_doc", "is_font", "is_image",
 
 
 def examples(tier):
-    return 560 if tier == "quick" else 8000
+    return 4200 if tier == "quick" else 60000
 
 
 def cap_blob(bits, flags, eff):
